@@ -392,6 +392,7 @@ func (db *SpecDB) loadSpecFile(path, pkgPath string) error {
 				if rest != "nothing" {
 					for _, p := range splitTop(rest) {
 						p = strings.TrimSpace(p)
+						p = strings.ReplaceAll(p, "[*cap]", "[__allcap]")
 						p = strings.ReplaceAll(p, "[*]", "[__all]")
 						e, err := parseSpecExpr(p, path, l.line)
 						if err != nil {
@@ -478,7 +479,8 @@ func (db *SpecDB) loadSpecFile(path, pkgPath string) error {
 				}
 				if w == "guarded_by" {
 					for _, p := range splitTop(rest[k+1:]) {
-						p = strings.ReplaceAll(strings.TrimSpace(p), "[*]", "[__all]")
+						p = strings.ReplaceAll(strings.TrimSpace(p), "[*cap]", "[__allcap]")
+						p = strings.ReplaceAll(p, "[*]", "[__all]")
 						e, err := parseSpecExpr(p, path, l.line)
 						if err != nil {
 							return err
